@@ -311,6 +311,64 @@ theorem C18_spawn_reap (k : Kind) (st : St) (slot wstat : Nat) (hl : st.slots.le
     · rw [e]
     · rw [e] at hn; cases hn
 
+/-- **The report reflects how the child ended — never an earlier child's status, never a guess** (round-4
+seeds). Of the events on the children's side, a child that merely closes its output descriptors and
+lives on (`cclose`) changes nothing and writes nothing: `docmd()` keeps the pipe's write end `d[i].fdout`
+open until `sigchld()` has stored the wait status, so the pipe cannot reach EOF before. Every report such an
+event causes is the report of the slot's collected output under a wait status that *this* child delivered:
+the status of the very death event (`exit`), or the one the handler stored when it reaped this child (`peof`
+after `reap`). And whatever the child wrote — a complete success report included — a child killed by a signal
+is reported `Z`, and a report `K` requires exit code 0 without a signal for qmail-rspawn (`k = .r`). -/
+theorem C18_spawn_report_after_status (k : Kind) (st : St) (op : Op) (hc : childOp op = true) :
+    (∀ slot, op = .cclose slot → ostep k st op = (st, [])) ∧
+    (∀ e ∈ (ostep k st op).2, ∃ slot ws out, e = Ev.report slot (reportBody k ws out) ∧
+        st.slots.getD slot none = some out ∧
+        (op = .exit slot ws ∨ (op = .peof slot ∧ st.dead.getD slot none = some ws))) ∧
+    (∀ ws out, ws % 128 ≠ 0 → (reportBody k ws out).head? = some 90) ∧
+    (∀ ws out, (reportBody .r ws out).head? = some 75 → ws % 128 = 0 ∧ ws / 256 = 0) := by
+  refine ⟨?_, ?_, ?_, ?_⟩
+  · intro slot h; subst h; rfl
+  · intro e he
+    cases op with
+    | cmd b => simp [childOp] at hc
+    | eof => simp [childOp] at hc
+    | out slot b =>
+      cases h : st.slots.getD slot none with
+      | none => simp only [ostep, h] at he; cases he
+      | some out => simp only [ostep, h] at he; cases he
+    | exit slot wstat =>
+      by_cases hd : (st.dead.getD slot none).isSome = true
+      · simp only [ostep, hd, if_true] at he; cases he
+      · simp only [ostep, hd, Bool.false_eq_true, if_false, childExit] at he
+        cases h : st.slots.getD slot none with
+        | none => simp only [h] at he; cases he
+        | some out =>
+          simp only [h, List.mem_singleton] at he
+          exact ⟨slot, wstat, out, he, h, Or.inl rfl⟩
+    | reap slot wstat => simp only [ostep] at he; cases he
+    | peof slot =>
+      rcases pipeEof_cases k st slot with ⟨e1, _⟩ | ⟨out, ws, h1, h2, e1⟩
+      · simp only [ostep] at he; rw [e1] at he; cases he
+      · simp only [ostep] at he; rw [e1] at he
+        simp only [List.mem_singleton] at he
+        exact ⟨slot, ws, out, he, h1, Or.inr ⟨rfl, h2⟩⟩
+    | cclose slot => simp only [ostep] at he; cases he
+  · intro ws out h
+    cases k with
+    | l => simp only [reportBody, lreport, h, ne_eq, not_false_eq_true, if_true]; decide
+    | r => simp only [reportBody, rreport, h, ne_eq, not_false_eq_true, if_true]; decide
+  · intro ws out h
+    simp only [reportBody, rreport] at h
+    by_cases h1 : ws % 128 ≠ 0
+    · rw [if_pos h1] at h; exact absurd h (by decide)
+    · rw [if_neg h1] at h
+      by_cases h2 : ws / 256 = Nq.Gen.SpawnTexts.R_SOFTCODE
+      · rw [if_pos h2] at h; exact absurd h (by decide)
+      · rw [if_neg h2] at h
+        by_cases h3 : ws / 256 ≠ 0
+        · rw [if_pos h3] at h; exact absurd h (by decide)
+        · exact ⟨by omega, by omega⟩
+
 /-- **The open/spawn discipline over a whole session** (the oracle `opensOK` the driver runs on the
 real programs): for every script of events — any bytes on descriptor 0 in any chunking, children
 writing and exiting in any order, any file-system behaviour `plan` — with `cmds` the complete
@@ -491,6 +549,17 @@ example : (Nq.Spawn.orun .l {} [.cmd [0, 49, 0, 0, 64, 0], .eof, .reap 0 0, .peo
     [Nq.Spawn.Ev.openRead [49], .spawnCall 0 [] [64] 0, .report 0 [75]] := by decide
 example : Nq.Spawn.exited (Nq.Spawn.orun .l {} [.cmd [0, 49, 0, 0, 64, 0], .eof, .reap 0 0, .peof 0]).1 = true := by decide
 example : Nq.Spawn.runConsumed .l [] [.cmd [0, 49, 0, 0, 64, 0], .eof, .reap 0 0, .peof 0, .cmd [1]] = 4 := by decide
+/- round-4 seed m3's scenario on the model: a child that wrote a complete success report (`r…\0K…\0`), closed its output
+   descriptors (`cclose`: nothing happens) and is later killed by signal 11 is relayed as `Zqmail-remote crashed.` -/
+example : (Nq.Spawn.orun .r {} [.cmd [0, 49, 0, 0, 64, 0], .out 0 [114, 0, 75, 111, 107, 10, 0], .cclose 0]).2 =
+    [.openRead [49], .spawnCall 0 [] [64] 0] := by decide
+example : (Nq.Spawn.orun .r {} [.cmd [0, 49, 0, 0, 64, 0], .out 0 [114, 0, 75, 111, 107, 10, 0], .cclose 0, .exit 0 11]).2 =
+    [.openRead [49], .spawnCall 0 [] [64] 0, .report 0 Nq.Gen.SpawnTexts.R_CRASHED] := by decide
+example : Nq.Spec.TB.lifeOK [.born 0, .call 0 0, .report 0 [75, 111, 107, 10]] = false ∧
+    Nq.Spec.TB.lifeOK [.born 0, .reaped 0 0, .call 0 0, .report 0 [75, 111, 107, 10]] = true ∧
+    Nq.Spec.TB.lifeOK [.born 0, .reaped 0 11, .call 0 0, .report 0 [75, 111, 107, 10]] = false ∧
+    Nq.Spec.TB.lifeOK [.born 0, .reaped 0 11, .call 0 11, .report 0 [75, 111, 107, 10]] = false ∧
+    Nq.Spec.TB.lifeOK [.born 0, .report 0 [90, 10], .reaped 0 11, .call 0 11, .report 0 [90, 10]] = true := by decide
 /-- the truncation oracle reads the report text of a log line: "delivery 7: success: ok\n" carries "ok\n";
 a status line carries none -/
 example : reportTextOf [100, 101, 108, 105, 118, 101, 114, 121, 32, 55, 58, 32, 115, 117, 99, 99, 101, 115, 115, 58, 32, 111, 107, 10]
